@@ -132,13 +132,15 @@ class Cancel(Contract):
     module = M
     function = "Deferred.cancel"
     calls = CALLS
-    inputs = dict(STATE, result_is_deferred=ForkBool())
+    # inner_called: the Deferred being waited on may itself have fired and be waiting on a third one; cancel() must still
+    # be forwarded to it (seeded change C03-1)
+    inputs = dict(STATE, result_is_deferred=ForkBool(), inner_called=ForkBool())
 
     def requires(self, i):
-        return not (i.result_is_deferred and not i.called)
+        return not (i.result_is_deferred and not i.called) and not (i.inner_called and not i.result_is_deferred)
 
     def setup(self, i):
-        inner = self.make(Deferred, "inner", called=False, callbacks=[]) if i.result_is_deferred else None
+        inner = self.make(Deferred, "inner", called=bool(i.inner_called), callbacks=[]) if i.result_is_deferred else None
         d = mkd(self, i, result=inner if i.result_is_deferred else (PLAIN if i.called else None))
         return dict(self=d, args=[], objs=dict(d=d), ghost=dict(inner=inner))
 
@@ -177,8 +179,11 @@ class Cancel(Contract):
                 ("self._suppressAlreadyCalled = True", "pass", "unfired_protocol")]
 
     def bounded_inputs(self, tier):
-        for combo in itertools.product([False, True], [False, True], [0, 1], [False, True], [False, True]):
-            yield dict(zip(["called", "suppress", "paused", "has_canceller", "result_is_deferred"], combo))
+        for combo in itertools.product([False, True], [False, True], [0, 1], [False, True], [False, True], [False, True]):
+            d = dict(zip(["called", "suppress", "paused", "has_canceller", "result_is_deferred", "inner_called"], combo))
+            if d["inner_called"] and not d["result_is_deferred"]:
+                continue
+            yield d
 
 
 class PauseUnpause(Contract):
